@@ -54,10 +54,15 @@ Skel(c, k, N) ==
       pos == SetToSeq1(P)
   IN [case |-> Flights[c].case, k |-> k - 1, len |-> Len(b), pos |-> pos, val |-> [j \in DOMAIN pos |-> b[pos[j]]]]
 
-\* how the harness must deliver the mutation: a ClientHello of a (possibly shuffling) parrot differs from
-\* connection to connection, so the captured hello(s) are sent instead of the live ones; every other message
-\* has a stable layout (checked: LayoutStable) and is spliced live, keys and transcripts staying consistent.
-ModeOf(f, b) == IF f.side = "rec" \/ (f.side = "c" /\ b[1] = 1) THEN "replace" ELSE "live"
+\* how the harness must deliver the mutation.  The first ClientHello of a parrot differs from connection to
+\* connection (GREASE, shuffling), so the CAPTURED hello is sent in place of the live one ("replace"); every
+\* other message is spliced live, keys and transcripts staying consistent, which needs a layout that is the
+\* same in every connection (checked on the second capture here, and by Flight_Trace on every live message).
+\* A second ClientHello (after HelloRetryRequest) must be live, because the client only sends it after the
+\* server answered ITS first hello; when its layout is not stable (shuffling parrots) it is not mutated.
+ModeOf(f, kk) == IF f.side = "rec" \/ (f.side = "c" /\ kk = 1 /\ f.msgs[kk][1] = 1) THEN "replace" ELSE "live"
+Stable(cc, kk, N) == kk <= Len(Flights[cc].msgs2) /\ SkelOK(Flights[cc].msgs2[kk], Skel(cc, kk, N))
+Mutable(cc, kk, N) == ModeOf(Flights[cc], kk) = "replace" \/ Stable(cc, kk, N)
 
 NoExtW == [t |-> 0 - 1, s |-> 0, e |-> 0]
 ExtW(f, b, N, n, m) ==   \* C07: the (type, body range in the mutated bytes) of the extension that encloses the mutated node
@@ -95,9 +100,9 @@ ScnSet(cc, kk, s) ==
   LET f  == Flights[cc]
       b  == f.msgs[kk]
       N  == TreeAt(cc, kk).nodes
-      ms == MutsAt(cc, kk, N)
+      ms == IF Mutable(cc, kk, N) THEN MutsAt(cc, kk, N) ELSE <<>>
       mk == KindName(b[IF f.side = "rec" THEN 6 ELSE 1])
-      md == ModeOf(f, b)
+      md == ModeOf(f, kk)
   IN { [kind |-> "mut", case |-> f.case, side |-> f.side, msg |-> kk - 1, st |-> s, mkind |-> mk,
         path |-> IF ms[i].m.cls = "insert" THEN "hs" ELSE N[ms[i].n].p, op |-> ms[i].m.op, cls |-> ms[i].m.cls, sp |-> ms[i].m.sp,
         mode |-> md, measure |-> GrowsDeclaredLength(ms[i].m) \/ DeclaresHuge(ms[i].m), decl |-> N[ms[i].n].decl,
@@ -139,13 +144,13 @@ Explained == st # "unexpected"
 \* the grammar covers every captured message completely
 GrammarCovers == (IsFlight /\ scn = None /\ k <= Len(F0.msgs)) => TreeAt(c, k).full
 \* the layout of live-spliced messages does not change from connection to connection
-LayoutStable == (IsFlight /\ scn = None /\ k <= Len(F0.msgs) /\ ModeOf(F0, F0.msgs[k]) = "live")
-                  => (k <= Len(F0.msgs2) /\ SkelOK(F0.msgs2[k], Skel(c, k, TreeAt(c, k).nodes)))
+LayoutStable == (IsFlight /\ scn = None /\ k <= Len(F0.msgs) /\ ModeOf(F0, k) = "live" /\ F0.msgs[k][1] # 1)
+                  => Stable(c, k, TreeAt(c, k).nodes)
 OutcomeOK == out \in {"pending"} \cup Outcomes
 
 \* ---------------------------------------------------------------- emission
 Emit == /\ (scn # None /\ out = "pending") => PrintT(<<"SCN", ToJson(scn)>>)
         /\ (IsFlight /\ scn = None /\ k <= Len(F0.msgs)) =>
               LET N == TreeAt(c, k).nodes IN
-              PrintT(<<"POS", ToJson([case |-> F0.case, msg |-> k - 1, st |-> st, nodes |-> Len(N), skel |-> Skel(c, k, N)])>>)
+              PrintT(<<"POS", ToJson([case |-> F0.case, msg |-> k - 1, st |-> st, nodes |-> Len(N), mutable |-> Mutable(c, k, N), skel |-> Skel(c, k, N)])>>)
 =============================================================================
